@@ -90,7 +90,7 @@ def sx_to_loc(x):
         if p[0] == "k":
             out.append(SX.sx2s(p[1]))
         else:
-            out.append(int(p[1]))
+            out.append(SX.big_int(p[1]))
     return out
 
 
@@ -134,7 +134,7 @@ def sx_parts_typed(x):
     out = []
     for p in x:
         if p[0] == "int":
-            out.append(["int", int(p[1])])
+            out.append(["int", SX.big_int(p[1])])
         else:
             out.append(["str", SX.sx2s(p[1])])
     return out
